@@ -110,6 +110,14 @@ def array_failures(d, st=None):
                     v = run(f"norm-dagger[{tag}]", fn)
                     if v is not None and scalar_of(v) != n2:
                         fails.append((f"C10/norm/{nm}/{tag}", f"{scalar_of(v)!r} expected {n2!r} (duals {x.duals}, parity {x.parity})"))
+    # the bra taken on a twice-fused copy and unfused again must still pair with x to the squared norm
+    if n == 3 and all_ket and labels_ket:
+        w = run("fuse.fuse.conj.unfuse.unfuse", lambda: x.fuse((0, 1)).fuse((0, 1)).conj().unfuse(0).unfuse(0))
+        if w is not None:
+            for nm, fn in (("<x,w>", lambda: sr.tensordot(x, w, n)), ("<w,x>", lambda: sr.tensordot(w, x, n))):
+                v = run("norm[nested-fuse-conj]", fn)
+                if v is not None and scalar_of(v) != n2:
+                    fails.append((f"C10/norm-nested-fuse-conj/{nm}", f"{scalar_of(v)!r} expected {n2!r}"))
     # involutions (default options)
     for nm, fn in (("conj.conj", lambda: x.conj().conj()), ("dagger.dagger", lambda: x.dagger().dagger()), ("H.H", lambda: x.H.H)):
         y = run(nm, fn)
